@@ -93,6 +93,14 @@ Reading of the property (what the oracle demands; chosen so that minimally repai
 * Round 5: a score note without a voice / without a staff is not demanded back with one (the format stores nothing;
   the reader assigns voice 1 / max+1 and a staff by pitch - compared with the model, stream attrs); staff numbers of two
   digits come back as written (fix C08-18); ornaments, fermatas and fingerings on the snote line change nothing.
+* Round 6: a time signature written INSIDE a measure (6/8 changing to 4/4 after two beats).  The format places a signature
+  at the start of the bar where it was written (the property says so), so such a signature cannot come back where it was
+  and the loaded beat count after it is not the saved one: for these scores (`midbar_ts`) the time-signature, measure and
+  beat-position clauses are not applied; every stored note is still demanded at its saved distance IN QUARTERS from the
+  loaded origin with its saved duration (score-onset-q / score-duration-q), and everything about the text, the
+  performance and the alignment.  The beat number of a note is counted in the beat type in force AT THE NOTE, so the
+  first line in the reader's order (measure, beat, offset) is then not the earliest note: fix C08-19 (the reader took
+  `snotes[0]` as the earliest one and moved every note; Lean: first_line_is_earliest / first_line_not_earliest).
 * Round 5 (kind "pid"): the id of a performed note as written and read (`format_pnote_id`) is stable: ids that follow the
   convention `n...` are kept, writing / reading twice changes nothing more.
 """
@@ -113,7 +121,7 @@ PROPERTY = "C08"
 DRIVER = "drv_c08"
 PROPS = ["PartituraModel.Props.C08", "PartituraModel.Props.C08Mixed", "PartituraModel.Props.C08Order",
          "PartituraModel.Props.C08Format", "PartituraModel.Props.C08Last", "PartituraModel.Props.C08Round5", "PartituraModel.Props.C08Attr",
-         "PartituraModel.Props.C08Compose"]
+         "PartituraModel.Props.C08Compose", "PartituraModel.Props.C08Fallback"]
 TRUSTED = [
     "C07 (line level): the text of a line <-> its fields; the correspondence reads the written text with its own "
     "regular expressions and the reader's input with the real line parsers; the synthesised old-format files are "
@@ -170,11 +178,23 @@ PARTIAL = [
     "divisions < 1250, time-signature changes on beat times four decimals hold - the general bound with knotErr stays "
     "in onset_roundtrip -, and hTS: the time-signature lines are read as written, i.e. every signature lies in a "
     "measure and none restates the one before it - a decidable condition on the score, discharged by `decide` in the "
-    "example, not proved from a well-formedness predicate) are PROVED.  Not proved: that the OnsetInBeats fallback does "
-    "not fire (the composed onsets are stated for notes on which it did not; the number of fallbacks is compared, "
-    "requests dec / rtq: always 0), the positions of the signatures and the end of the last bar in the composition "
-    "(last_bar_closed is about the piece), and - the tie itself - that part_from_matchfile is `reconstruct`: COMPARED "
-    "(requests dec / decn / decr / durf / attrs on the text side, rtq / rtn end to end)",
+    "example, not proved from a well-formedness predicate) are PROVED.  Round 6 (Props/C08Fallback.lean): the OnsetInBeats "
+    "fallback of part_from_matchfile is now inside the composition - reconstruct_onset_spec (all inputs: the two numbers "
+    "the reader compares for each note, which one it keeps and the flag it records), fallback_quiet (two positions whose "
+    "beat times were rounded to four decimals pass isclose(atol = divs/100)), roundtrip_onsets_exact / roundtrip_onsets_all: "
+    "under the hypotheses of roundtrip_onsets and nothing more, NO fallback flag is set and EVERY loaded onset is the "
+    "saved distance from the loaded origin (the origin: the EARLIEST line if before beat 0, fix C08-19).  Not proved: the "
+    "positions of the signatures and the end of the last bar in the composition (last_bar_closed is about the piece), hTS "
+    "from a well-formedness predicate, and - the tie itself - that part_from_matchfile is `reconstruct`: COMPARED (requests "
+    "dec / decn / decr / durf / attrs on the text side, rtq / rtn end to end; the number of fallbacks of the "
+    "implementation is compared there too: always 0)",
+    "time signatures INSIDE a measure (round 6): the quarter positions, durations, text, performance and alignment are "
+    "judged and compared with the model (every 8th generated case gets such a variant: 41 of 441 scores of a quick run; never in the first "
+    "measure: a change there decides whether Part.beat_map counts the measure as a pickup and moves the reader's zero of "
+    "the quarter axis off beat 0 - Score.quarters of the model is the reader's axis); the loaded time signatures, "
+    "measures and beat positions of such scores are NOT judged (the format puts a signature at the start of its bar).  "
+    "first_line_is_earliest / repair_conservative (the unrepaired reader was right on scores with laid-out measures and "
+    "signatures at measure starts) are proved, first_line_not_earliest is the witness of F-C08-19",
     "order of the written lines: line_order (permutation, sorted by the documented key, stable) and "
     "time_map_places (the map passes through the matched onsets and is monotone when they are performed in score "
     "order) are proved; the knots themselves (means of float32 onsets per score onset, grace-only onsets left out) "
@@ -221,7 +241,10 @@ RULE = ("seeded random single-divs parts (13 dyadic/triplet division values; 30%
         "duplicate / conflicting lines; every 7th with empty lines inserted (also before the version line); every 3rd "
         "is also written as a version 0.1.0-0.5.0 file with the line classes of matchlines_v0 and loaded (a quarter "
         "of those with injected duplicates); every 6th is re-read with its durations / offsets re-spelled with tuple "
-        "divisors and additive components; 2 lists of 40 arbitrary performed-note ids; plus the repository's match files. "
+        "divisors and additive components; every 8th also with a time signature INSIDE a measure (at a stored onset "
+        "that has a stored onset before it in its bar, preferring points and beat types that give the later note "
+        "the smaller beat number, else 70% a coarser beat type; 60% or more with nothing stored before that bar, so that "
+        "its lines open the file; own random stream - the other cases are what they were); 2 lists of 40 arbitrary performed-note ids; plus the repository's match files. "
         "distinct = distinct sub-seed (or file) and kind; non-trivial = a file was written and read")
 LEVEL_TEXT = ("Lean 4 theorems about an executable model of the match-file time arithmetic (exporter: measure:beat + "
               "offset/duration fractions; importer: divisions = lcm of denominators, beats->quarters map over time "
@@ -230,7 +253,9 @@ LEVEL_TEXT = ("Lean 4 theorems about an executable model of the match-file time 
               "the seconds iff it stays below half a tick), the reader's de-duplication rule, the alignment extraction and the order of the written lines, for all "
               "inputs, plus theorems stating what the format cannot hold (bars without a stored note, bar lines off the "
               "reader's grid); round 5: the COMPOSITION of the pieces (reconstruct_spec; write-then-read roundtrip_durations, "
-              "roundtrip_onsets, roundtrip_bars), the loaded durations in binary64 (exact whenever one rounded division follows "
+              "roundtrip_onsets, roundtrip_bars; round 6: roundtrip_onsets_all - the reader's OnsetInBeats fallback "
+              "never overrides a written position, every loaded onset is exact, with no assumption about the order of the "
+              "lines since fix C08-19), the loaded durations in binary64 (exact whenever one rounded division follows "
               "exact integer products), measure numbers by position and one bar per distinct number, the score attributes "
               "(voice, staff, staccato / accent, grace through the attribute list, for every note and every plain name), "
               "performed-note ids, pedal lines, and the literal pieces of the live source regenerated on every run "
@@ -743,6 +768,70 @@ def fractions_in_format(desc):
     return True
 
 
+def midbar_variant(desc, r):
+    """round 6: the same case with a time signature INSIDE a measure: at the onset of a stored note that has another
+    stored onset before it in the same bar (so that the two are written with beat numbers counted in different beat
+    types - where the order of the lines by measure / beat / offset is not the order in time); the signature in force
+    before comes back at the next bar line unless another one starts there; never in the first measure.  None if no bar
+    offers such a point."""
+    import copy
+
+    d = copy.deepcopy(desc)
+    pd = d["part"]
+    ts = sorted(pd["ts"])
+    meas = sorted(pd["measures"])
+    byid = {n["id"]: n for n in pd["notes"]}
+    stored_t = sorted(set(byid[a["score_id"]]["t"] for a in d["align"] if a["label"] in ("match", "deletion")))
+    cands = []
+    for i, (ms, me, _) in enumerate(meas):
+        if i == 0 or any(ms < x[0] < me for x in ts):
+            # not the first measure: a change of metre inside it decides whether Part.beat_map counts it as a pickup,
+            # and a change before beat 0 moves the reader's zero of the quarter axis away from beat 0 (Score.quarters
+            # of the model counts the stretch before beat 0 in the first beat type, as the reader does)
+            continue
+        cands += [(i, c) for c in stored_t if ms < c < me and any(ms <= t < c for t in stored_t)]
+    if not cands:
+        return None
+    def sig_at(t):
+        return [x for x in ts if x[0] <= t][-1] if any(x[0] <= t for x in ts) else ts[0]
+
+    # REVERSING points: the earliest stored note of the bar stands after the bar line and a coarser beat type from the
+    # cut on gives the note at the cut a SMALLER beat number than that earlier note has
+    divs = pd["divs"]
+    rev = []
+    for (i, c) in cands:
+        ms = meas[i][0]
+        a = min(t for t in stored_t if ms <= t)
+        if ms < a < c:
+            for x in TS_POOL:
+                if ((c - ms) * x[1]) // (4 * divs) < ((a - ms) * sig_at(ms)[2]) // (4 * divs):
+                    rev.append((i, c, x))
+    reversing = bool(rev) and r.random() < 0.7
+    if reversing:
+        i, cut, (b2, bt2) = r.choice(rev)
+    else:
+        i, cut = r.choice(cands)
+    ms, me, _ = meas[i]
+    cur = sig_at(ms)
+    if not reversing:
+        coarser = [x for x in TS_POOL if x[1] < cur[2]]
+        # a COARSER beat after the change (eighths, then quarters) gives the later note the smaller beat number
+        b2, bt2 = r.choice(coarser if coarser and r.random() < 0.7 else [x for x in TS_POOL if x[1] != cur[2]])
+    if reversing or r.random() < 0.6:
+        # nothing stored before this bar: its lines open the file (matches before it become insertions, deletions go)
+        early = set(n["id"] for n in pd["notes"] if n["t"] < ms)
+        d["align"] = [({"label": "insertion", "performance_id": a["performance_id"]}
+                       if a["label"] == "match" and a["score_id"] in early else a)
+                      for a in d["align"] if not (a["label"] == "deletion" and a["score_id"] in early)]
+    pd["ts"].append([cut, b2, bt2])
+    if i + 1 < len(meas) and not any(x[0] == me for x in ts):
+        pd["ts"].append([me, cur[1], cur[2]])
+    pd["ts"].sort()
+    pd["shape"] = dict(pd.get("shape") or {}, midbar=True)
+    d["variant"] = "midbar"
+    return d
+
+
 def cases(rng, tier):
     for fn in sorted(os.listdir(FIXDIR)) if os.path.isdir(FIXDIR) else []:
         if fn.endswith(".match"):
@@ -763,6 +852,11 @@ def cases(rng, tier):
         desc["sub"] = sub
         made += 1
         yield desc
+        if made % 8 == 0:
+            # round 6: a time signature inside a measure (its own random stream: the other cases stay what they were)
+            mb = midbar_variant(desc, random.Random(sub ^ 0x19C08))
+            if mb is not None and domain_ok(mb):
+                yield mb
         if made % 4 == 0:
             yield {"k": "dedup", "base": desc, "seed": rng.randint(0, 2**31)}
         if made % 3 == 0:
@@ -1137,6 +1231,10 @@ def oracle_rt(desc, res, v0=False, text=True):
     if not grid_ok(desc):
         return F
     F += oracle_quarters(desc, res, stored, v0)
+    if midbar_ts(pd):
+        # the loaded time signatures stand at bar starts (see the reading, round 6): measures and beat positions are
+        # not comparable; the quarter positions above are
+        return F
     F += oracle_measures(desc, res, stored, v0)
     if not bars_covered(desc):
         return F
@@ -1239,6 +1337,7 @@ def oracle_text(desc, res):
     byid = {n["id"]: n for n in pd["notes"]}
     meas = sorted(pd["measures"])
     first_num = 0 if float(sbm(meas[0][0])) < 0 else 1
+    divs = pd["divs"]
 
     def mnum(t):
         return first_num + max(i for i, (ms, me, _) in enumerate(meas) if ms <= t < me)
@@ -1287,6 +1386,34 @@ def oracle_text(desc, res):
         got = sorted((m.group(2), int(m.group(3)), dec4(m.group(6))) for m in lines)
         if want != got or any(int(m.group(4)) < 1 for m in lines):
             F.append("text-sig: %s lines state (value, measure, time) %r beats %r, the score has %r" % (attr, got, [m.group(4) for m in lines], want))
+            continue
+        # round 6: measure:beat + offset of a signature line state its position as they do for a note - beats of the
+        # signature's beat type after the bar line plus a non-negative fraction of a whole note (a signature inside a
+        # measure; at a bar line: beat 1, offset 0).  Fractions beyond the format's bound of 1024 are approximated by
+        # the writer: not judged
+        tss = sorted(pd["ts"])
+        for m in lines:
+            cands = [x for x in src if any(ms <= x[0] < me for ms, me, _ in meas)
+                     and (namef(x), mnum(x[0]), int(round(float(sbm(x[0])) * 10000))) == (m.group(2), int(m.group(3)), dec4(m.group(6)))]
+            try:
+                off = Fraction(m.group(5))
+            except (ValueError, ZeroDivisionError):
+                F.append("text-sig: %s line %r carries an offset that is no fraction" % (attr, m.group(0)))
+                continue
+            ok = False
+            for x in cands:
+                den = [y for y in tss if y[0] <= x[0]][-1][2] if any(y[0] <= x[0] for y in tss) else tss[0][2]
+                ms_ = max(q[0] for q in meas if q[0] <= x[0] < q[1])
+                rel = x[0] - ms_
+                exact = Fraction((rel * den) % (4 * divs), 4 * divs * den)
+                if exact.numerator > 1024 or exact.denominator > 1024:
+                    ok = True
+                    break
+                if off >= 0 and Fraction((int(m.group(4)) - 1) * 4 * divs, den) + off * 4 * divs == rel:
+                    ok = True
+                    break
+            if cands and not ok:
+                F.append("text-sig: %s line %r does not state the position of its signature (measure start + beats + offset)" % (attr, m.group(0)))
     return F
 
 
@@ -1332,6 +1459,8 @@ def oracle_quarters(desc, res, stored, v0=False):
             v = (int(o.beats), int(o.beat_type)) if cls is S.TimeSignature else (int(o.fifths), o.mode)
             loaded.setdefault(Fraction(o.start.t).limit_denominator(10**6) / ldivs, []).append(v)
         prev = None
+        if cls is S.TimeSignature and midbar_ts(pd):
+            continue           # a time signature inside a bar is loaded at the start of the bar (reading, round 6)
         src = [x for x in src if any(ms <= x[0] < me for ms, me, _ in meas)]
         changes = []           # signatures that differ from the one before
         for x in src:
@@ -1491,6 +1620,11 @@ def grid_ok(desc):
         if ((ms - o_ref) * D) % divs != 0:
             return False
     return True
+
+
+def midbar_ts(pd):
+    """a time signature strictly inside a measure (round 6): the format puts a signature at the start of its bar"""
+    return any(ms < x[0] < me for x in pd["ts"] for ms, me, _ in pd["measures"])
 
 
 def bars_covered(desc):
@@ -2213,6 +2347,19 @@ def evaluate_(desc):
             feats.append("rich-rhythm")
         if shape.get("split"):
             feats.append("split-bar")
+        if midbar_ts(pd):
+            feats.append("timesig-inside-a-bar")
+            sl = [byid_t for byid_t in sorted(set(n["t"] for n in pd["notes"] if n["id"] in set(
+                a["score_id"] for a in desc["align"] if a["label"] in ("match", "deletion"))))]
+            if "mf" in res and sl:
+                # is the first line in the reader's order (measure, beat, offset) the earliest stored note?
+                try:
+                    from partitura.io.importmatch import sort_snotes
+                    sn = sort_snotes(res["mf"].snotes)
+                    if sn and sn[0].OnsetInBeats > min(x.OnsetInBeats for x in sn):
+                        feats.append("first-line-not-earliest")
+                except Exception:
+                    pass
         nn = [n for n in pd["notes"] if n["kind"] != "rest"]
         if any(n.get("voice") is None for n in nn):
             feats.append("note-without-voice")
@@ -2230,7 +2377,7 @@ def evaluate_(desc):
         ev.info["feats"] = feats
         ev.info["covered"] = bars_covered(desc)
         ev.info["grid"] = grid_ok(desc)
-        ev.key = "rt:%s:%d" % (desc.get("sub"), len(desc["align"])) if "text" in res else None
+        ev.key = "rt%s:%s:%d" % ("-" + desc["variant"] if desc.get("variant") else "", desc.get("sub"), len(desc["align"])) if "text" in res else None
         return ev
     if k == "blank":
         base = desc["base"]
